@@ -166,7 +166,24 @@ def build(ctx):
         a = (pt["T"], pt["p"], pt["api"], pt["gg"], pt["R"])
         return f(*a, pt["Tpc"], pt["Ppc"], pt["Tstd"], pt["pstd"]), g(*a)
 
-    obs.append(cas_ob(ctx, "oil.co_above", "p >= p_b: oil_compressibility_Standing == oil_compressibility_undersat_Spivey", co_above, CO_BOX, cofs, co_above_real, tol=1e-9, hyp_real=above_real, representations=True))
+    _co_above = cas_ob(ctx, "oil.co_above", "p >= p_b: oil_compressibility_Standing == oil_compressibility_undersat_Spivey", co_above, CO_BOX, cofs, co_above_real, tol=1e-9, hyp_real=above_real, representations=True)
+
+    def near_bubblepoint_replay(w, inner=_co_above.replay):
+        """'at and above the bubble point': the pressures AT p_b and a few psi above it (a random point of the box almost never
+        falls into a window a few psi wide next to an input-dependent threshold)"""
+        f, g, pbf = real(OIL + "oil_compressibility_Standing"), real(OIL + "oil_compressibility_undersat_Spivey"), real(OIL + "pressure_bubblepoint_Standing")
+        for (T_, api_, gg_, R_) in ((200.0, 35.0, 0.8, 650.0), (150.0, 30.0, 0.9, 300.0), (250.0, 42.0, 0.75, 1100.0), (120.0, 25.0, 0.65, 150.0)):
+            pb = float(pbf(T_, api_, gg_, R_))
+            for d_ in (0.0, 1e-9, 1e-3, 0.5, 2.0, 4.9, 9.0, 30.0, 120.0):
+                p_ = pb + d_
+                a = float(f(T_, p_, api_, gg_, R_, -72.0, 650.0, 60.0, 14.7))
+                b = float(g(T_, p_, api_, gg_, R_))
+                if not close(a, b, 1e-9):
+                    return {"reproduced": True, "input": {"T": T_, "p": p_, "api": api_, "gg": gg_, "R": R_, "p_b": pb, "p - p_b": d_}, "observed": {"oil_compressibility_Standing": a}, "required": {"oil_compressibility_undersat_Spivey": b}}
+        return inner(w) if inner else {"reproduced": False}
+
+    _co_above.replay = near_bubblepoint_replay
+    obs.append(_co_above)
 
     def co_below():
         pb, c, outs = co_paths()
